@@ -16,8 +16,8 @@ from core import log
 PROP = "G04"
 TEXTS = {"T1": "x := 1\ny := x + 1\n", "T2": "A paragraph of prose, nothing else.\n\nz := [1 2 3]\n"}
 HTML_TEXTS = {"T1": "<p>one</p>\n", "T2": "<h1>two</h1>\n"}
-PATHS = ["a.mec", "index.mec", "sub/index.mec", "b.html"]
-HTML_PATHS = ["b.html"]
+PATHS = ["a.mec", "index.mec", "sub/index.mec", "b.html", "index.html"]
+HTML_PATHS = ["b.html", "index.html"]
 
 def texts_universe():
     u = {}
@@ -32,6 +32,73 @@ def name_for(p, t):
 
 def fam(op): return op["o"] + ("-html" if op.get("p") in HTML_PATHS else "")
 
+TPATHS = ["a.mec", "index.mec", "sub/index.mec", "b.html", "c.mec", "index.html"]
+THTML = ["b.html", "index.html"]
+TTEXTS = {"T1": TEXTS["T1"], "T2": TEXTS["T2"], "T3": "q := 5\n", "HT1": HTML_TEXTS["T1"], "HT2": HTML_TEXTS["T2"], "HT3": "<em>three</em>\n"}
+
+def trace_family(rep, tier, rnd):
+    """impl -> spec: long random sessions on the real MechSources, validated record by record by TLC (Trace_G04)"""
+    import json, os
+    nsess, length = (150, 40) if tier == "quick" else (1500, 60)
+    def uname(p, t): return t if t in ("none", "-") else (("H" + t) if p in THTML else t)
+    sessions = []
+    for k in range(nsess):
+        fs0 = {p: rnd.choice(["none", "T1", "T1", "T2"]) for p in TPATHS}
+        ops = []
+        for _ in range(length):
+            o = rnd.choices(["add", "reload", "write", "remove", "code"], weights=[5, 6, 6, 2, 1])[0]
+            pth = rnd.choice(TPATHS); t = rnd.choice(["T1", "T2", "T3"])
+            ops.append({"o": o, "p": pth if o != "code" else "-", "t": t if o in ("write", "code") else "-"})
+        sessions.append((fs0, ops))
+    reqs = [{"id": i, "mode": "sources", "files": {p: uname(p, t) for p, t in fs0.items() if t != "none"}, "paths": TPATHS, "texts": TTEXTS,
+             "ops": [{"o": o["o"], "p": o["p"], "t": uname(o["p"], o["t"])} for o in ops]} for i, (fs0, ops) in enumerate(sessions)]
+    outs = execpool.run_requests(reqs, nworkers=16, timeout=300)
+    os.makedirs(os.path.join(tlc.OUT, "traces"), exist_ok=True)
+    path = os.path.join(tlc.OUT, "traces", f"g04_{tier}.ndjson")
+    def back(p, name):
+        name = name.rstrip("~")
+        return name[1:] if (name.startswith("HT")) else name
+    nev = 0; where = []
+    with open(path, "w") as fh:
+        for (fs0, ops), (resp, oc) in zip(sessions, outs):
+            if oc != "ok" or "steps" not in (resp or {}):
+                rep.fail(f"G04/trace/host-{oc}", f"random session: executor {oc}", {"ops": ops}); continue
+            fh.write(json.dumps({"ev": "Reset", "fs": fs0}) + "\n"); nev += 1; where.append((ops, -1))
+            for i, (o, st) in enumerate(zip(ops, resp["steps"])):
+                obs = st.get("obs") or {}
+                if obs.get("panic"):
+                    rep.fail("G04/trace/query-panics", f"a query panicked after {ops[:i + 1]}", {"ops": ops}); break
+                rec = {"ev": "Op", "o": o["o"], "p": o["p"], "t": o["t"], "r": "ok" if st.get("r") == "ok" else "fail",
+                       "src": {p: back(p, obs["src"][p]) for p in TPATHS}, "tree": {p: back(p, obs["tree"][p]) for p in TPATHS},
+                       "html": {p: back(p, obs["html"][p]) for p in TPATHS}, "idx": back("", obs["index"]["src"]),
+                       "codes": {t: obs["code"][t]["src"].rstrip("~") == t for t in ("T1", "T2", "T3")}}
+                fh.write(json.dumps(rec) + "\n"); nev += 1; where.append((ops, i))
+    tt = tlc.run("Trace_G04", "Trace_G04.cfg", workers=1, env={"TRACE": path}, deque=True, xss="1g", xmx="4g", timeout=3000, tag=f"Trace_G04_{tier}")
+    lags = [m for m in tt.msgs if m.get("kind") == "lag"]
+    for m in tt.msgs:
+        if m.get("kind") == "unmatched":
+            ops, i = where[m["l"] - 1] if m["l"] - 1 < len(where) else (None, None)
+            rep.fail("G04/trace/unexplained", f"record {m['l']} of the trace is not explained by MechSources (nor by its named deviation): {json.dumps(m.get('ev'))[:400]}",
+                     {"ops": ops, "op_index": i})
+    if tt.violations:
+        rep.fail("G04/trace/invariant", "a registry invariant is violated on an observed execution: " + "; ".join(tt.errors[:2]), {"log": tt.log})
+    if lags:
+        ops, i = where[lags[0]["l"] - 1]
+        rep.fail("G04/reload/tree-stale", f"{len(lags)} reload records of the random sessions are explained only by the stale-parse deviation (first: reload({lags[0]['p']}))",
+                 {"ops": ops[: i + 1]})
+    # negative control: corrupt one observed field of one record; the validation must stop there
+    lines = open(path).read().split("\n")
+    k = next((j for j, ln in enumerate(lines) if '"ev": "Op"' in ln and '"o": "add"' in ln and '"r": "ok"' in ln), None)
+    neg_ok = None
+    if k is not None:
+        rec = json.loads(lines[k]); rec["src"][rec["p"]] = "T3" if rec["src"][rec["p"]] != "T3" else "T1"
+        neg = path.replace(".ndjson", "_neg.ndjson"); open(neg, "w").write("\n".join(lines[:k] + [json.dumps(rec)] + lines[k + 1: k + 5]) + "\n")
+        tn = tlc.run("Trace_G04", "Trace_G04.cfg", workers=1, env={"TRACE": neg}, deque=True, xss="1g", xmx="2g", timeout=600, tag="Trace_G04_neg")
+        neg_ok = any(m.get("kind") == "unmatched" and m.get("l") == k + 1 for m in tn.msgs)
+        if not neg_ok: raise tlc.TlcError(f"negative control failed: Trace_G04 accepted a corrupted record (line {k + 1}): {tn.msgs[:2]}")
+    log(f"[G04] trace validation: {nsess} random sessions, {nev} records checked by TLC in {tt.wall:.1f}s; lag records {len(lags)}; negative control rejected: {neg_ok}")
+    return {"sessions": nsess, "records_validated_by_TLC": nev, "records_explained_only_by_the_lag_deviation": len(lags), "negative_control_rejected": neg_ok}
+
 def run(rep, tier, seed):
     cfg = "MC_G04_quick.cfg" if tier == "quick" else "MC_G04_thorough.cfg"
     t = tlc.run("MC_G04", cfg, workers=8, timeout=3000)
@@ -42,12 +109,12 @@ def run(rep, tier, seed):
         rep.fail("G04/model/negative-control", "the stale-parse deviation (ReloadLag = TRUE) was NOT rejected by the invariant Coherent", {})
     cases = t.cases
     rnd = random.Random(seed)
-    cap = 8000 if tier == "quick" else 60000
+    cap = 12000 if tier == "quick" else 80000
     exhaustive = len(cases) <= cap
     if not exhaustive: cases = rnd.sample(cases, cap)
     log(f"[G04] TLC: {t.generated} states, {len(t.cases)} sessions ({len(cases)} replayed) in {t.wall:.1f}s; negative control rejected: {bool(neg.violations)}")
     uni = texts_universe()
-    init_files = {p: name_for(p, "T1") for p in PATHS if p != "sub/index.mec"}
+    init_files = {p: name_for(p, "T1") for p in PATHS if p not in ("sub/index.mec", "index.html")}
     reqs = []
     for ci, cs in enumerate(cases):
         ops = [{"o": o["o"], "p": o["p"], "t": name_for(o["p"], o["t"])} for o in cs["hist"]]
@@ -76,7 +143,7 @@ def run(rep, tier, seed):
             # per-path entries
             for what in ("src", "tree", "html"):
                 for p in PATHS:
-                    want = name_for(p, e[what][p])
+                    want = name_for(e["hfrom"][p] if what == "html" else p, e[what][p])
                     got = obs[what][p]
                     if got.endswith("~"): got = got[:-1]
                     if got != want:
@@ -108,12 +175,14 @@ def run(rep, tier, seed):
             if obs["n"][0] != nreg:
                 rep.fail(f"G04/{f}/count", f"{show}: after op {i} {obs['n'][0]} sources stored, model {nreg}", replay); bad = True; break
         if not bad: tally["ok"] += 1
+    trace_cov = trace_family(rep, tier, rnd)
     pc = rep.cov.pop("panics_instead_of_errors", None)
     rep.cov.update({
         "states": t.generated, "distinct_states": t.distinct, "transitions": t.generated,
         "sessions_emitted": len(t.cases), "traces_validated_against_impl": len(cases), "exhaustive": exhaustive,
         "sessions_fully_matched": tally["ok"], "operations_by_family": dict(fams),
         "failing_operations_that_panic_instead_of_returning_an_error": dict(pc or {}),
+        "trace_validation": trace_cov,
         "negative_control": "MC_G04_lag.cfg (the implementation's stale-parse deviation) violates Coherent: " + str(bool(neg.violations)),
         "rule": "every session of MC_G04 (add / reload / add_code / write / remove over four paths incl. an HTML source, a nested index.mec "
                 "and an absent file) issued against the real mech::MechSources; outcome and the whole client-visible state after every operation = model"})
